@@ -83,6 +83,7 @@ Inductive stmt :=
 | SFill (cnt val : expr)
 | SZeroUntil (a : expr)
 | SInstr (ps : list ipart)
+| SInstrs (steps : list (list ipart))             (* a macro invocation: its expanded instruction sequence *)
 | SOrg (e : expr) (z : option str)
 | SMemzone (z : str)
 | SAlign (e : option expr)
@@ -267,7 +268,7 @@ Definition instr_bytes (ev : expr -> result Z) (addr : Z) (ps : list ipart) : re
 Record sized := { s_line : placed; s_addr : Z; s_size : Z }.
 
 Definition is_byte_stmt (s : stmt) : bool :=
-  match s with SData _ _ _ | SBytes _ | SFill _ _ | SZeroUntil _ | SInstr _ => true | _ => false end.
+  match s with SData _ _ _ | SBytes _ | SFill _ _ | SZeroUntil _ | SInstr _ | SInstrs _ => true | _ => false end.
 
 (* the address a line is given: the zone cursor, except for .org (its expression, offset from the zone's start when a
    zone is named, and inside GLOBAL) and .align (next page boundary) *)
@@ -290,6 +291,7 @@ Definition line_size (ev : expr -> result Z) (addr : Z) (s : stmt) : result Z :=
   | SFill c _ => do n <- ev c; if n <? 0 then Rejected else Ok n
   | SZeroUntil a => do t <- ev a; Ok (zerountil_size t addr)
   | SInstr ips => Ok (instr_size ips)
+  | SInstrs steps => Ok (fold_right (fun ips acc => instr_size ips + acc) 0 steps)
   | _ => Ok 0
   end.
 
@@ -315,6 +317,15 @@ Fixpoint pass1 (cfg : config) (zs : list zone) (ls : labels) (ps : list placed) 
 
 (* ---------- pass 2 ---------- *)
 
+(* the instructions of a sequence are assembled one after the other, each at the address it occupies *)
+Fixpoint instrs_bytes (ev : expr -> result Z) (addr : Z) (steps : list (list ipart)) : result (list Z) :=
+  match steps with
+  | [] => Ok []
+  | ips :: rest => do b <- instr_bytes ev addr ips;
+                   do bs <- instrs_bytes ev (addr + instr_size ips) rest;
+                   Ok (b ++ bs)
+  end.
+
 Definition gen_bytes (cfg : config) (ls : labels) (s : sized) : result (list Z) :=
   let p := s_line s in
   let ev := eval_in cfg ls (p_scope p) in
@@ -324,6 +335,7 @@ Definition gen_bytes (cfg : config) (ls : labels) (s : sized) : result (list Z) 
   | SFill _ v => do x <- ev v; Ok (fill_bytes (s_size s) x)
   | SZeroUntil _ => Ok (fill_bytes (s_size s) 0)
   | SInstr ips => instr_bytes ev (s_addr s) ips
+  | SInstrs steps => instrs_bytes ev (s_addr s) steps
   | _ => Ok []
   end.
 
